@@ -384,6 +384,22 @@ def gen_tokens():
 
 GENERATORS = {"GenTokens": gen_tokens}
 
+# pluggable generators: tools/gens/<name>.py defining NAME (e.g. "GenPrec") and generate() -> (filename, text);
+# they may raise gen_tables.Untranslatable
+def _load_plugins():
+    import importlib
+    gdir = os.path.join(HERE, "gens")
+    if not os.path.isdir(gdir):
+        return
+    sys.path.insert(0, HERE)
+    for f in sorted(os.listdir(gdir)):
+        if f.endswith(".py") and not f.startswith("_"):
+            m = importlib.import_module("gens." + f[:-3])
+            GENERATORS[m.NAME] = m.generate
+
+
+_load_plugins()
+
 
 def write_if_changed(path, text):
     if os.path.exists(path) and open(path, encoding="utf-8").read() == text:
